@@ -1,4 +1,5 @@
 import Cell2v.Lemmas.SceneM
+import Cell2v.Lemmas.SceneMSys
 /-!
 C19 — property theorems (MMO scene manager: live scenes and their line numbers
 stay consistent).  Only property statements, non-vacuity examples and the
@@ -410,6 +411,225 @@ theorem dup_create_breaks_bijection :
     (dupCreateWorld.onSceneEnd 7).lines 100 = [⟨100, 7, 0⟩] ∧ (dupCreateWorld.onSceneEnd 7).scenes = [] := by
   decide
 
+/-! ## The manager as a system: `SpawnScene`, the keeper, requests in flight (no hypothesis on the history)
+
+`SReachable s`: `s` is the state after ANY list of system events (cluster-view change, `SpawnScene`,
+the keeper's `trySpawnScene`, an answer — for a known or unknown request, success or failure —, scene end,
+refresh, clock, periodic check, manager/world-level loss), starting from `NewMgr`.  Scenes come into
+being only through an allocation and its successful answer, so the hypothesis of the theorems above
+("no create-success names a live scene") is not assumed here but proved. -/
+
+def SReachable (s : Sys) : Prop := ∃ evs, s = Sys.init.run evs
+
+theorem sysInv_reachable {s : Sys} (h : SReachable s) : SysInv s := by
+  obtain ⟨evs, rfl⟩ := h
+  exact sysInv_run sysInv_init evs
+
+/-- **Every system history satisfies the hypothesis**: the manager state of a system history is
+`Reachable`, hence all theorems above (bijection, sorted/unique line numbers, smallest free line,
+exact removal, requests) hold for it without any assumption. -/
+theorem sys_history_admissible {s : Sys} (h : SReachable s) : Reachable s.m := by
+  obtain ⟨evs, rfl⟩ := h
+  obtain ⟨mevs, ha, hr⟩ := sys_run_embeds sysInv_init evs
+  exact ⟨mevs, ha, hr⟩
+
+/-- … in particular the bijection and the line-number clauses, stated once more for system histories -/
+theorem sys_world_consistent {s : Sys} (h : SReachable s) :
+    WorldInv s.m.world ∧ (∀ c, (s.m.world.lines c).Pairwise (fun a b => a.line < b.line)) :=
+  ⟨(sysInv_reachable h).world, fun c => (sysInv_reachable h).world.sorted c⟩
+
+/-- **Scene ids**: requests in flight carry pairwise distinct, nonzero ids that are not live and were
+issued by the counter; live scenes carry nonzero ids issued by the counter (uint64 wrap-around not modelled). -/
+theorem sys_ids_disciplined {s : Sys} (h : SReachable s) :
+    s.pending.Pairwise (fun a b => a.sid ≠ b.sid) ∧
+    (∀ p ∈ s.pending, p.sid ≠ 0 ∧ p.sid < s.m.nextId ∧ ∀ o ∈ s.m.world.scenes, o.sid ≠ p.sid) ∧
+    (∀ o ∈ s.m.world.scenes, o.sid ≠ 0 ∧ o.sid < s.m.nextId) := by
+  have hi := sysInv_reachable h
+  refine ⟨hi.pnodup, fun p hp => ⟨Nat.pos_iff_ne_zero.1 (hi.pIds p hp).1, (hi.pIds p hp).2,
+    fun o ho => hi.liveNotPending o ho p hp⟩, fun o ho => ⟨Nat.pos_iff_ne_zero.1 (hi.liveIds o ho).1, (hi.liveIds o ho).2⟩⟩
+
+/-- **A request answers "nothing" exactly when the configuration has no live scene** — for system
+histories the reserved id 0 never occurs, so `request_none_only_if_no_scene` needs no side condition. -/
+theorem sys_request_none_iff_no_scene {s : Sys} (h : SReachable s) (cfg r : Nat) :
+    s.m.world.reqScene cfg r = none ↔ ∀ o ∈ s.m.world.scenes, o.cfg ≠ cfg := by
+  have hi := sysInv_reachable h
+  constructor
+  · intro hn
+    exact (request_none_only_if_no_scene (sys_history_admissible h) cfg r
+      (fun o ho => Nat.pos_iff_ne_zero.1 (hi.liveIds o ho).1) hn).2
+  · intro hno
+    have hempty : s.m.world.lines cfg = [] := by
+      cases hls : s.m.world.lines cfg with
+      | nil => rfl
+      | cons a as =>
+        exfalso
+        have ha : a ∈ s.m.world.lines cfg := by rw [hls]; exact List.mem_cons_self
+        obtain ⟨_, o, ho, _, hc, _⟩ := hi.world.lineScene cfg a ha
+        exact hno o ho hc
+    simp [World.reqScene, hempty]
+
+/-- **Placement over histories**: in every history (the only side condition: `FindIdleService` visits the
+service map in SOME order), every live scene and every request in flight was placed by a
+`SpawnScene`/keeper/`AllocScene`-handler event of that history, and at that moment its service was known,
+considered working, and no working service was less busy; its id was the value of the id counter. -/
+theorem placement_over_histories (evs : List SEv) (hok : OkRun Sys.init evs) :
+    let placed := fun (sid cfg svc : Nat) =>
+      ∃ pre post order e, SEv.places e cfg order ∧ evs = pre ++ e :: post ∧
+        (Sys.init.run pre).m.nextId = sid ∧
+        ∃ v, (svc, v) ∈ (Sys.init.run pre).m.services ∧ v.working = true ∧
+          ∀ x ∈ (Sys.init.run pre).m.services, x.2.working = true → satKey v.n ≤ satKey x.2.n
+    (∀ o ∈ (Sys.init.run evs).m.world.scenes, placed o.sid o.cfg o.svc) ∧
+    (∀ p ∈ (Sys.init.run evs).pending, placed p.sid p.cfg p.svc) := by
+  intro placed
+  have conv : ∀ sid cfg svc, PlacedAt evs sid cfg svc → placed sid cfg svc := by
+    rintro sid cfg svc ⟨pre, post, order, e, hpl, hsplit, hperm, hid, hfind⟩
+    exact ⟨pre, post, order, e, hpl, hsplit, hid, alloc_prefers_least_busy satKey _ order hperm svc hfind⟩
+  obtain ⟨a, b⟩ := origin_run evs hok
+  exact ⟨fun o ho => conv _ _ _ (a o ho), fun p hp => conv _ _ _ (b p hp)⟩
+
+/-- **`SpawnScene` itself registers nothing** (whatever it answers, and also when the request fails at
+once because the chosen service is not in the cluster view), and it answers `false` only if no
+service is working. -/
+theorem spawn_registers_nothing (s : Sys) (cfg : Nat) (order : List (Nat × Stat)) (hp : order.Perm s.m.services) :
+    (s.spawn cfg order).1.m.world = s.m.world ∧ (s.spawn cfg order).1.m.services = s.m.services ∧
+    ((s.spawn cfg order).2 = .noService → ∀ e ∈ s.m.services, e.2.working = false) ∧
+    (∀ sid k, (s.spawn cfg order).2 = .noRoute sid k → (s.spawn cfg order).1.pending = s.pending) := by
+  rcases spawn_cases s cfg order with ⟨hk, e⟩ | ⟨k, hk, _, e⟩ | ⟨k, hk, _, e⟩ <;> rw [e] <;> refine ⟨rfl, rfl, ?_, ?_⟩
+  · exact fun _ => (alloc_only_on_working satKey s.m order hp).2 hk
+  · intro sid k h; simp at h
+  · intro h; simp at h
+  · intro sid k' h; simp at h
+  · intro h; simp at h
+  · intro sid k' _; rfl
+
+/-- **A failed or unknown answer registers nothing; an answer is consumed at most once.**
+(The theorem is about `Sys.reply`, the model of the reply callback, not about a hand-written event list.) -/
+theorem failed_reply_registers_nothing (s : Sys) (sid : Nat) :
+    (s.reply sid false).m = s.m ∧
+    (∀ ok, (∀ p ∈ s.pending, p.sid ≠ sid) → s.reply sid ok = s) ∧
+    (∀ ok ok', (s.reply sid ok).reply sid ok' = s.reply sid ok) := by
+  have unknown : ∀ (t : Sys) ok, (∀ p ∈ t.pending, p.sid ≠ sid) → t.reply sid ok = t := by
+    intro t ok hu
+    have : t.pending.find? (fun p => p.sid == sid) = none :=
+      List.find?_eq_none.2 (fun p hp => by simpa using hu p hp)
+    unfold Sys.reply; rw [this]
+  refine ⟨?_, fun ok => unknown s ok, fun ok ok' => ?_⟩
+  · unfold Sys.reply
+    cases s.pending.find? (fun p => p.sid == sid) <;> rfl
+  · apply unknown
+    intro p hp
+    unfold Sys.reply at hp
+    cases hf : s.pending.find? (fun p => p.sid == sid) with
+    | none =>
+      rw [hf] at hp
+      exact fun he => by
+        have := List.find?_eq_none.1 hf p hp
+        simp [he] at this
+    | some q =>
+      rw [hf] at hp
+      have hp' : p ∈ s.pending.filter (fun q => q.sid != sid) := by
+        cases ok <;> simpa using hp
+      simpa using (List.mem_filter.1 hp').2
+
+/-- **A successful answer registers exactly the scene the request was sent for** — with the id,
+configuration and service fixed at allocation time, on the smallest free line of its configuration;
+all other scenes and configurations are untouched; the request is no longer in flight. -/
+theorem reply_ok_registers_exactly {s : Sys} (h : SReachable s) (sid : Nat) (p : Pend)
+    (hf : s.pending.find? (fun p => p.sid == sid) = some p) :
+    ∃ id, (s.reply sid true).m.world.scenes = ⟨p.sid, p.cfg, id, p.svc⟩ :: s.m.world.scenes ∧
+      p.sid = sid ∧
+      (∀ l ∈ s.m.world.lines p.cfg, l.line ≠ id) ∧
+      (∀ j, j < id → ∃ l ∈ s.m.world.lines p.cfg, l.line = j) ∧
+      (∀ c, c ≠ p.cfg → (s.reply sid true).m.world.lines c = s.m.world.lines c) ∧
+      (s.reply sid true).pending = s.pending.filter (fun q => q.sid != sid) ∧
+      (s.reply sid true).m.services = s.m.services := by
+  have hi := sysInv_reachable h
+  refine ⟨fineIdle (s.m.world.lines p.cfg), ?_, (find_pending hf).2,
+    fineIdle_not_mem (hi.world.sorted _), fineIdle_below_mem (hi.world.sorted _), ?_, ?_, ?_⟩
+  · rw [reply_ok_eq hi hf]
+  · intro c hc; rw [reply_ok_eq hi hf]; exact updLines_other _ _ hc
+  · rw [reply_ok_eq hi hf]
+  · rw [reply_ok_eq hi hf]
+
+/-- **The keeper** (`PublicScenes.trySpawnScene`) does nothing while the configuration has at least
+`reqNum` confirmed lines, and otherwise does exactly one `SpawnScene`. -/
+theorem keeper_spawns_only_below_need (s : Sys) (cfg n : Nat) (order : List (Nat × Stat)) :
+    ((s.m.world.lines cfg).length ≥ n → s.keeper cfg n order = (s, (s.m.world.lines cfg).length)) ∧
+    ((s.m.world.lines cfg).length < n → (s.keeper cfg n order).1 = (s.spawn cfg order).1) := by
+  constructor
+  · intro h; simp [Sys.keeper, h]
+  · intro h
+    rcases keeper_fst s cfg n order with ⟨h', _⟩ | ⟨_, e⟩
+    · omega
+    · exact e
+
+/-- **The remote `AllocScene` handler** places exactly like `SpawnScene` (same allocation, same request);
+it registers nothing itself; when no service is working the client is never answered and nothing
+changes (handler/remote.go dereferences the nil allocation inside a scheduler task whose panic is
+recovered); a client is told "ok" only by the answer that registers its scene. -/
+theorem handler_places_like_spawn (s : Sys) (cfg : Nat) (order : List (Nat × Stat)) (hp : order.Perm s.m.services) :
+    (s.halloc cfg order).1.m = (s.spawn cfg order).1.m ∧
+    (s.halloc cfg order).1.pending = (s.spawn cfg order).1.pending ∧
+    (s.halloc cfg order).1.m.world = s.m.world ∧
+    ((s.halloc cfg order).2 = .silent ↔ (s.spawn cfg order).2 = .noService) ∧
+    ((s.halloc cfg order).2 = .silent → (s.halloc cfg order).1 = s ∧ ∀ e ∈ s.m.services, e.2.working = false) := by
+  have hw := (spawn_registers_nothing s cfg order hp).1
+  have hn := (spawn_registers_nothing s cfg order hp).2.2.1
+  unfold Sys.halloc
+  rcases spawn_cases s cfg order with ⟨hk, e⟩ | ⟨k, hk, _, e⟩ | ⟨k, hk, _, e⟩ <;> rw [e] at hw hn ⊢
+  · exact ⟨rfl, rfl, rfl, by simp, fun _ => ⟨rfl, hn rfl⟩⟩
+  · exact ⟨rfl, rfl, rfl, by simp, fun h => by simp at h⟩
+  · exact ⟨rfl, rfl, rfl, by simp, fun h => by simp at h⟩
+
+theorem handler_ack_only_for_registered_scene {s : Sys} (h : SReachable s) (sid : Nat)
+    (ha : s.replyAck sid true = some true) :
+    ∃ p ∈ s.pending, p.sid = sid ∧ sid ∈ s.waiting ∧
+      ∃ id, (s.reply sid true).m.world.scenes = ⟨sid, p.cfg, id, p.svc⟩ :: s.m.world.scenes ∧
+        sid ∉ (s.reply sid true).waiting := by
+  unfold Sys.replyAck at ha
+  split at ha
+  · rename_i hc
+    simp only [Bool.and_eq_true, List.any_eq_true, List.contains_iff_mem] at hc
+    obtain ⟨⟨q, hq, hqs⟩, hw⟩ := hc
+    cases hf : s.pending.find? (fun p => p.sid == sid) with
+    | none => exact absurd hqs (by simpa using List.find?_eq_none.1 hf q hq)
+    | some p =>
+      obtain ⟨hp, hsid⟩ := find_pending hf
+      obtain ⟨id, h1, _⟩ := reply_ok_registers_exactly h sid p hf
+      refine ⟨p, hp, hsid, hw, id, hsid ▸ h1, ?_⟩
+      rw [reply_ok_eq (sysInv_reachable h) hf]
+      intro hm
+      simpa using (List.mem_filter.1 hm).2
+  · cases ha
+
+/-- the state after: service 1 refreshed, routable -/
+def sys1 : Sys := (Sys.init.step (.route [1])).step (.refresh 1 0)
+
+def ord1 : List (Nat × Stat) := [(1, { n := 0, working := true, last := 0, failed := 0, since := 0 })]
+
+/-- What the keeper does NOT guarantee (the model mirrors publicscenes.go, which counts confirmed
+lines only): with answers outstanding it sends another request every time it runs, and when all
+are confirmed the configuration has more lines than `ReqNum` (here 2 for `ReqNum = 1`). -/
+theorem keeper_overshoots_with_replies_outstanding :
+    let s := (((sys1.step (.keeper 100 1 ord1)).step (.keeper 100 1 ord1)).step (.reply 1 true)).step (.reply 2 true)
+    (s.m.world.lines 100).length = 2 ∧ s.m.world.scenes.map (·.sid) = [2, 1] := by
+  decide
+
+/-- the history of review finding 1: allocation, then the service falls silent and is declared lost,
+then the (late) successful answer arrives -/
+def lateConfirm : List SEv :=
+  [.route [1], .refresh 1 0, .spawn 100 ord1, .adv 3000, .tick, .adv 3000, .tick, .adv 3000, .tick, .adv 3000, .tick,
+   .reply 1 true]
+
+/-- What placement does NOT guarantee (the model mirrors world.go: `OnSceneCreateSucc` does not look at
+the service): a successful answer that arrives after its service was declared lost registers the
+scene on that non-working service; the loss has already been processed, so nothing removes it. -/
+theorem late_confirm_registers_on_lost_service :
+    (Sys.init.run lateConfirm).m.world.scenes = [⟨1, 100, 0, 1⟩] ∧
+    (Sys.init.run lateConfirm).m.services.map (fun e => (e.1, e.2.working)) = [(1, false)] ∧
+    (Sys.init.run (lateConfirm ++ [.adv 3000, .tick])).m.world.scenes = [⟨1, 100, 0, 1⟩] := by
+  decide
+
 /-! ### non-vacuity -/
 
 /-- a concrete disciplined history: two services, three scenes on two configurations,
@@ -458,5 +678,45 @@ example : ∃ e ∈ (Mgr.init.run (demo.take 19)).services, losesNow (Mgr.init.r
 example : findIdle satKey [(1, ⟨3, true, 0, 0, 0⟩), (2, ⟨3, true, 0, 0, 0⟩), (3, ⟨9, true, 0, 0, 0⟩)] = some 1 ∧
     findIdle satKey [(2, ⟨3, true, 0, 0, 0⟩), (3, ⟨9, true, 0, 0, 0⟩), (1, ⟨3, true, 0, 0, 0⟩)] = some 2 ∧
     findIdle satKey [(1, ⟨3, false, 0, 0, 0⟩)] = none := by decide
+
+/-! ### non-vacuity (system level) -/
+
+/-- a system history: two services, three allocations (one through the keeper), one refused, one never
+answered, one unknown answer, an end, a loss -/
+def sdemo : List SEv :=
+  [.route [1, 2], .refresh 1 0, .spawn 100 ord1, .reply 1 true, .keeper 100 2 ord1, .reply 2 false,
+   .halloc 101 ord1, .reply 9 true, .keeper 100 2 ord1, .reply 4 true, .endScene 1, .lost 1]
+
+private theorem sdemo_ok : OkRun Sys.init (sdemo.take 10) := by
+  refine ⟨trivial, trivial, ?_, trivial, ?_, trivial, ?_, trivial, ?_, trivial, trivial⟩ <;> exact List.Perm.refl _
+
+example : SReachable (Sys.init.run sdemo) := ⟨sdemo, rfl⟩
+
+example : (Sys.init.run (sdemo.take 10)).m.world.scenes = [⟨4, 100, 1, 1⟩, ⟨1, 100, 0, 1⟩] ∧
+    (Sys.init.run (sdemo.take 10)).pending = [⟨3, 101, 1⟩] := by decide
+
+/-- `placement_over_histories` has live instances (two live scenes, one request in flight) -/
+example : ∃ o, o ∈ (Sys.init.run (sdemo.take 10)).m.world.scenes ∧ o.svc = 1 :=
+  ⟨⟨4, 100, 1, 1⟩, by decide, rfl⟩
+
+example := placement_over_histories (sdemo.take 10) sdemo_ok
+
+/-- `reply_ok_registers_exactly`: request 4 is in flight before the 10th event -/
+example : (Sys.init.run (sdemo.take 9)).pending.find? (fun p => p.sid == 4) = some ⟨4, 100, 1⟩ := by decide
+
+/-- `sys_request_none_iff_no_scene`: after `sdemo` everything is gone (scene 1 ended, service 1 lost) -/
+example : (Sys.init.run sdemo).m.world.scenes = [] ∧ (Sys.init.run sdemo).m.world.reqScene 100 3 = none := by decide
+
+/-- `spawn_registers_nothing`: all three outcomes occur -/
+example : (sys1.spawn 100 ord1).2 = .sent 1 1 ∧ ((sys1.step (.route [])).spawn 100 ord1).2 = .noRoute 1 1 ∧
+    (Sys.init.spawn 100 []).2 = .noService := by decide
+
+/-- the handler: a client is waiting for request 3; with no working service the handler stays silent -/
+example : (Sys.init.run (sdemo.take 10)).waiting = [3] ∧ (Sys.init.run (sdemo.take 10)).replyAck 3 true = some true ∧
+    (Sys.init.halloc 100 []).2 = .silent ∧ (sys1.halloc 100 ord1).2 = .sent 1 1 ∧
+    ((sys1.step (.route [])).halloc 100 ord1).2 = .refused 1 1 := by decide
+
+/-- `keeper_spawns_only_below_need`: both branches occur -/
+example : ((Sys.init.run (sdemo.take 10)).keeper 100 2 ord1).2 = 2 ∧ (sys1.keeper 100 2 ord1).2 = 1 := by decide
 
 end Cell2v.Props.C19
